@@ -154,6 +154,7 @@ func ruleBranch(c *Ctx) {
 			continue
 		}
 		classes := map[string]*branchClass{}
+		nearBad := map[string]bool{}
 		for i := range paths {
 			p := paths[i]
 			if len(p.Ret.Results) != 2 {
@@ -208,7 +209,8 @@ func ruleBranch(c *Ctx) {
 				l, lok := ops[1].L.(*ssa.Const)
 				r, rok := ops[1].R.(*ssa.Const)
 				good := lok && rok && ops[1].Op == token.ADD && jccBytes[byte(l.Uint64())] && r.Uint64() == 0x10
-				if !good {
+				if !good && !nearBad[bc.Key] {
+					nearBad[bc.Key] = true
 					c.fail("T3b", bc.Key+"|near opcode", c.L.Pos(retPos(p.Ret)), "near conditional jump must be 0F followed by (rel8 opcode + 0x10); found "+ops[1].Desc)
 				}
 			}
